@@ -224,12 +224,21 @@ impl Property for C14 {
                 let path = jbk::Utf8PathBuf::from_path_buf(dir.join("a.jbk")).unwrap();
                 let io = |e: std::io::Error| Failure::new("create-error", format!("many-packs container: {e}"));
                 let jb = |e: jbk::creator::Error| Failure::new("create-error", format!("many-packs container: {e}"));
-                let mut container = jbk::creator::ContainerPackCreator::new(&path, Default::default()).map_err(io)?;
+                // application bytes of every header are set (never the default) and looked for by the
+                // independent decoder at their documented place
+                let fdb = |kind: u8, k: u16| -> [u8; 24] {
+                    let mut b = [0u8; 24];
+                    for (i, x) in b.iter_mut().enumerate() {
+                        *x = kind ^ (i as u8).wrapping_mul(7) ^ (k as u8) ^ ((k >> 8) as u8).wrapping_mul(31) | 1;
+                    }
+                    b
+                };
+                let mut container = jbk::creator::ContainerPackCreator::new(&path, fdb(b'C', 0).into()).map_err(io)?;
                 let mut contents: Vec<(jbk::ContentAddress, Vec<u8>)> = vec![];
                 let mut datas = vec![];
                 for k in 0..*packs {
                     let file = container.into_file().map_err(io)?;
-                    let mut cp = jbk::creator::ContentPackCreator::new_from_output(file, jbk::PackId::from(k + 1), vendor(), Default::default(), comp.to_jbk()).map_err(io)?;
+                    let mut cp = jbk::creator::ContentPackCreator::new_from_output(file, jbk::PackId::from(k + 1), vendor(), fdb(b'c', k).into(), comp.to_jbk()).map_err(io)?;
                     let b = content_bytes(k as u32 + 77, 5 + (k % 40) as usize, Entropy::Text);
                     let a = cp.add_content(Box::new(std::io::Cursor::new(b.clone())), jbk::creator::CompHint::Detect).map_err(io)?;
                     contents.push((a, b));
@@ -241,13 +250,13 @@ impl Property for C14 {
                 }
                 let addresses: Vec<(u16, u32)> = contents.iter().map(|(a, _)| (a.pack_id.into_u16(), a.content_id.into_u32())).collect();
                 let dmodel = build_model(&DirSpec::addresses_only(), &addresses);
-                let mut dp = jbk::creator::DirectoryPackCreator::new(jbk::PackId::from(0), vendor(), Default::default());
+                let mut dp = jbk::creator::DirectoryPackCreator::new(jbk::PackId::from(0), vendor(), fdb(b'd', 0).into());
                 build_dir(&dmodel).install(&mut dp);
                 let fin = dp.finalize().map_err(io)?;
                 let mut file = container.into_file().map_err(io)?;
                 let dir_data = fin.write(&mut file).map_err(jb)?;
                 container = file.close(dir_data.uuid).map_err(io)?;
-                let mut manifest = jbk::creator::ManifestPackCreator::new(vendor(), Default::default());
+                let mut manifest = jbk::creator::ManifestPackCreator::new(vendor(), fdb(b'm', 0).into());
                 manifest.add_pack(dir_data, "");
                 for d in datas {
                     manifest.add_pack(d, "");
@@ -267,6 +276,23 @@ impl Property for C14 {
                 // free data ids: all distinct, some need their high byte
                 let data = std::fs::read(path.as_std_path()).unwrap();
                 let fd = crate::indep::decode_file(&data).map_err(|e| Failure::new("indep-layout", e))?;
+                {
+                    let got = fd.container.as_ref().map(|c| c.free_data.clone()).unwrap_or_default();
+                    ensure!(got == fdb(b'C', 0), "free-data-container", "container header free data on disk {got:02x?}, given {:02x?}", fdb(b'C', 0));
+                    let mut k = 0u16;
+                    for p in &fd.packs {
+                        let (got, want, what) = match &p.body {
+                            crate::indep::PackBody::Content(c) => {
+                                k += 1;
+                                (c.free_data.clone(), fdb(b'c', k - 1), format!("content pack {k}"))
+                            }
+                            crate::indep::PackBody::Directory(d) => (d.free_data.clone(), fdb(b'd', 0), "directory pack".to_string()),
+                            crate::indep::PackBody::Manifest(m) => (m.free_data.clone(), fdb(b'm', 0), "manifest pack".to_string()),
+                        };
+                        ensure!(got == want, "free-data-pack", "{what}: header free data on disk {got:02x?}, given {want:02x?}");
+                    }
+                    ensure!(k == *packs, "free-data-pack", "{k} content packs decoded, {packs} written");
+                }
                 if let crate::indep::PackBody::Manifest(m) = &fd.packs[fd.find_kind(b'm').unwrap()].body {
                     let ids: std::collections::BTreeSet<u16> = m.pack_infos.iter().filter(|p| p.pack_kind == b'c').map(|p| p.free_data_id).collect();
                     ensure!(ids.len() == *packs as usize, "free-data-ids", "{} distinct free data ids for {packs} packs with distinct free data", ids.len());
